@@ -329,3 +329,196 @@ Proof.
   intros ls s a H Hq. destruct (st (cl s a)) eqn:E; auto.
   exfalso. apply Hq. eapply state_none_implies_queue_empty_pf; eauto.
 Qed.
+
+(* ---------------------------------------------------------------- ghost history vs labels and observations *)
+Definition local_obs (a : addr) (f : client -> lres) : Prop :=
+  forall c c' o cpu, f c = Ok c' o cpu ->
+    delivered c' = delivered c ++ received a o /\ (forall b, b <> a -> received b o = []) /\ arrived c' = arrived c.
+
+Lemma delivered_snoc_true c d h : hist c = h -> map fst (filter snd (h ++ [(d, true)])) = map fst (filter snd h) ++ [d].
+Proof. intros _. rewrite filter_app, map_app. reflexivity. Qed.
+
+Lemma received_self a d : received a [ORecv a d] = [d].
+Proof. simpl. rewrite Nat.eqb_refl. reflexivity. Qed.
+Lemma received_other a b d : b <> a -> received b [ORecv a d] = [].
+Proof. intros H. simpl. destruct (Nat.eqb_spec a b); [congruence|reflexivity]. Qed.
+
+Lemma client_coroutine_obs a : local_obs a (client_coroutine a).
+Proof.
+  intros c c' o cpu H. cbreak c. unfold client_coroutine, delivered in *. simpl in *.
+  destruct st_; try discriminate. destruct q_; simpl in H; crush. simpl. rewrite app_nil_r. auto.
+Qed.
+
+Lemma handler_check_obs a : local_obs a (handler_check a).
+Proof.
+  intros c c' o cpu H. unfold handler_check in H.
+  destruct (st c) eqn:Es; [destruct (queue c) eqn:Eq|destruct (queue c)|destruct (queue c)];
+    try (crush; simpl; rewrite app_nil_r; auto; fail).
+  exact (client_coroutine_obs a _ _ _ _ H).
+Qed.
+
+Lemma l_hstart_obs a d susp : local_obs a (l_hstart a d susp).
+Proof.
+  intros c c' o cpu H. unfold l_hstart in H.
+  destruct (st c) eqn:Es; [|destruct susp|destruct susp];
+    try (exact (handler_check_obs a _ _ _ _ H));
+    crush; unfold delivered; simpl; rewrite app_nil_r; auto.
+Qed.
+
+Lemma l_hresume_obs a : local_obs a (l_hresume a).
+Proof.
+  intros c c' o cpu H. unfold l_hresume in H. destruct (hsusp c); [discriminate|].
+  exact (handler_check_obs a _ _ _ _ H).
+Qed.
+
+Lemma l_taskstart_obs a : local_obs a (l_taskstart a).
+Proof.
+  intros c c' o cpu H. unfold l_taskstart in H. destruct (st c); try discriminate.
+  exact (client_coroutine_obs a _ _ _ _ H).
+Qed.
+
+Lemma l_gsuspend_obs a : local_obs a l_gsuspend.
+Proof.
+  intros c c' o cpu H. unfold l_gsuspend in H. destruct (pc c); crush; unfold delivered; simpl; rewrite app_nil_r; auto.
+Qed.
+
+Lemma l_gresume_obs a : local_obs a l_gresume.
+Proof.
+  intros c c' o cpu H. unfold l_gresume in H.
+  destruct (pc c), (gsusp c); crush; unfold delivered; simpl; rewrite app_nil_r; auto.
+Qed.
+
+Lemma l_gyield_obs a t : local_obs a (l_gyield a t).
+Proof.
+  intros c c' o cpu H. unfold l_gyield in H. destruct (pc c); crush; unfold delivered; simpl.
+  - rewrite filter_app, map_app. simpl. rewrite Nat.eqb_refl. repeat split; auto.
+    intros b Hb. destruct (Nat.eqb_spec a b); [congruence|reflexivity].
+  - rewrite app_nil_r; auto.
+Qed.
+
+Lemma finish_obs a : local_obs a finish.
+Proof.
+  intros c c' o cpu H. unfold finish in H. destruct (st c); try discriminate.
+  simpl in H. destruct (queue c); crush; unfold delivered; simpl; rewrite app_nil_r; auto.
+Qed.
+
+Lemma l_gfinish_obs a : local_obs a l_gfinish.
+Proof.
+  intros c c' o cpu H. unfold l_gfinish in H. destruct (pc c) eqn:Epc; try discriminate.
+  - destruct (finish_obs a _ _ _ _ H) as (H1 & H2 & H3). repeat split; auto.
+    rewrite H1. unfold delivered. simpl. rewrite filter_app, map_app. simpl. rewrite app_nil_r. reflexivity.
+  - exact (finish_obs a _ _ _ _ H).
+Qed.
+
+Lemma l_popwake_obs a : local_obs a (l_popwake a).
+Proof.
+  intros c c' o cpu H. unfold l_popwake in H. destruct (pc c), (queue c); crush; unfold delivered; simpl.
+  rewrite filter_app, map_app. simpl. rewrite Nat.eqb_refl. repeat split; auto.
+  intros b Hb. destruct (Nat.eqb_spec a b); [congruence|reflexivity].
+Qed.
+
+Lemma l_timeout_obs a : local_obs a (l_timeout a).
+Proof.
+  intros c c' o cpu H. unfold l_timeout in H. destruct (pc c) as [| | |[|]]; crush; unfold delivered; simpl.
+  rewrite app_nil_r; auto.
+Qed.
+
+Lemma received_app a x y : received a (x ++ y) = received a x ++ received a y.
+Proof.
+  induction x as [|o x IH]; simpl; [reflexivity|].
+  destruct o; auto. destruct (Nat.eqb a0 a); simpl; rewrite IH; reflexivity.
+Qed.
+
+Lemma arrivals_app a x y : arrivals a (x ++ y) = arrivals a x ++ arrivals a y.
+Proof.
+  induction x as [|l x IH]; simpl; [reflexivity|].
+  destruct l; auto. destruct (Nat.eqb a0 a); simpl; rewrite IH; reflexivity.
+Qed.
+
+(* what one step does to the ghost history of every address *)
+Definition ghost_step (s s' : state) (l : label) (o : list obs) : Prop :=
+  forall b, delivered (cl s' b) = delivered (cl s b) ++ received b o /\
+            arrived (cl s' b) = arrived (cl s b) ++ arrivals b [l].
+
+Lemma commit_ghost s sp a pre f s' o l :
+  Inv s' -> local_obs a f -> (forall b, received b pre = []) -> (forall b, arrivals b [l] = []) ->
+  commit s sp a pre (f (cl s a)) = Some (s', o) -> ghost_step s s' l o.
+Proof.
+  intros HI Hf Hpre Hl H. unfold commit in H. destruct (f (cl s a)) as [| |c' o' cpu] eqn:E; [discriminate| |].
+  - inversion H; subst. destruct HI as [He _]. simpl in He. discriminate.
+  - inversion H; subst; clear H. destruct (Hf _ _ _ _ E) as (Hd & Hoth & Ha).
+    intros b. rewrite (Hl b), received_app, (Hpre b), app_nil_r. simpl.
+    destruct (Nat.eq_dec b a) as [->|Hne].
+    + rewrite upd_eq. auto.
+    + rewrite upd_neq by auto. rewrite Hoth by auto. rewrite app_nil_r. auto.
+Qed.
+
+Lemma step_ghost s l s' o : Inv s -> step s l = Some (s', o) -> ghost_step s s' l o.
+Proof.
+  intros HI H. pose proof (step_inv _ _ _ _ HI H) as HI'. pose proof HI as [He Hall].
+  unfold step in H. rewrite He in H.
+  destruct l as [a d|susp|a|a|a|a|a t|a|a|a|a];
+    try (destruct (cpu_free s); [|discriminate]); try (destruct (on_cpu s a); [|discriminate]).
+  - (* Arrive *)
+    unfold commit in H. inversion H; subst; clear H. intros b. simpl.
+    destruct (Nat.eq_dec b a) as [->|Hne].
+    + rewrite upd_eq, Nat.eqb_refl. unfold delivered. simpl. rewrite app_nil_r. auto.
+    + rewrite upd_neq by auto. destruct (Nat.eqb_spec a b); [congruence|]. rewrite !app_nil_r. auto.
+  - destruct (spawned s) as [|[a d] sp] eqn:Esp; [discriminate|].
+    eapply (commit_ghost s sp a [OHStart a d] (l_hstart a d susp)); [exact HI'|apply l_hstart_obs|intros; reflexivity|intros; reflexivity|exact H].
+  - eapply (commit_ghost s _ a [] (l_hresume a)); [exact HI'|apply l_hresume_obs|intros; reflexivity|intros; reflexivity|exact H].
+  - eapply (commit_ghost s _ a [] (l_taskstart a)); [exact HI'|apply l_taskstart_obs|intros; reflexivity|intros; reflexivity|exact H].
+  - eapply (commit_ghost s _ a [] l_gsuspend); [exact HI'|apply l_gsuspend_obs|intros; reflexivity|intros; reflexivity|exact H].
+  - eapply (commit_ghost s _ a [] l_gresume); [exact HI'|apply l_gresume_obs|intros; reflexivity|intros; reflexivity|exact H].
+  - eapply (commit_ghost s _ a [] (l_gyield a t)); [exact HI'|apply l_gyield_obs|intros; reflexivity|intros; reflexivity|exact H].
+  - eapply (commit_ghost s _ a [] l_gfinish); [exact HI'|apply l_gfinish_obs|intros; reflexivity|intros; reflexivity|exact H].
+  - eapply (commit_ghost s _ a [] l_gfinish); [exact HI'|apply l_gfinish_obs|intros; reflexivity|intros; reflexivity|exact H].
+  - eapply (commit_ghost s _ a [] (l_popwake a)); [exact HI'|apply l_popwake_obs|intros; reflexivity|intros; reflexivity|exact H].
+  - eapply (commit_ghost s _ a [] (l_timeout a)); [exact HI'|apply l_timeout_obs|intros; reflexivity|intros; reflexivity|exact H].
+Qed.
+
+Lemma trace_ghost ls : forall s s' o, Inv s -> trace s ls = Some (s', o) ->
+  forall b, delivered (cl s' b) = delivered (cl s b) ++ received b o /\
+            arrived (cl s' b) = arrived (cl s b) ++ arrivals b ls.
+Proof.
+  induction ls as [|l ls IH]; intros s s' o HI H b; simpl in H.
+  - inversion H; subst. simpl. rewrite !app_nil_r. auto.
+  - destruct (step s l) as [[s1 o1]|] eqn:E; [|discriminate].
+    destruct (trace s1 ls) as [[s2 o2]|] eqn:E2; [|discriminate]. inversion H; subst; clear H.
+    pose proof (step_inv _ _ _ _ HI E) as HI1.
+    destruct (step_ghost _ _ _ _ HI E b) as [Hd Ha]. destruct (IH _ _ _ HI1 E2 b) as [Hd2 Ha2].
+    rewrite Hd2, Hd, Ha2, Ha, received_app, <- !app_assoc.
+    change (l :: ls) with ([l] ++ ls). rewrite arrivals_app. auto.
+Qed.
+
+(* per address: what the generators were handed (requests), in order, is the arrival sequence with the documented
+   discards removed; nothing is lost, duplicated or reordered: everything not yet consumed is still held / queued /
+   with a handler task that has not run, in arrival order *)
+Lemma fifo_exactly_once_pf :
+  forall ls s o a, trace state0 ls = Some (s, o) ->
+    received a o = map fst (filter snd (hist (cl s a))) /\
+    map fst (hist (cl s a)) ++ held (cl s a) ++ queue (cl s a) ++ proj a (spawned s) = arrivals a ls.
+Proof.
+  intros ls s o a H. destruct (trace_ghost _ _ _ _ Inv0 H a) as [Hd Ha]. simpl in Hd, Ha.
+  pose proof (steps_inv _ _ _ Inv0 (trace_steps _ _ _ _ H)) as [_ Hall]. destruct (Hall a) as [_ Hf].
+  unfold fifo_at, flat in Hf. split.
+  - symmetry. exact Hd.
+  - rewrite <- Ha, <- Hf, <- !app_assoc. reflexivity.
+Qed.
+
+(* frame property: a transition concerning address a leaves every other address untouched *)
+Lemma clients_independent_pf :
+  forall s l s' o a b, step s l = Some (s', o) -> label_addr s l = Some a -> b <> a ->
+    cl s' b = cl s b /\ proj b (spawned s') = proj b (spawned s).
+Proof.
+  intros s l s' o a b H Ha Hb. unfold step in H. destruct (err s); [discriminate|].
+  assert (Hc : forall sp pre r, commit s sp a pre r = Some (s', o) -> cl s' b = cl s b /\ spawned s' = sp).
+  { intros sp pre r Hcm. unfold commit in Hcm. destruct r; inversion Hcm; subst; simpl; auto.
+    rewrite upd_neq by auto. auto. }
+  destruct l as [a0 d|susp|a0|a0|a0|a0|a0 t|a0|a0|a0|a0]; simpl in Ha;
+    try (destruct (cpu_free s); [|discriminate]); try (destruct (on_cpu s a0); [|discriminate]);
+    try (inversion Ha; subst a0; destruct (Hc _ _ _ H) as [H1 H2]; split; [exact H1|rewrite H2; reflexivity]).
+  - inversion Ha; subst a0. destruct (Hc _ _ _ H) as [H1 H2]. split; [exact H1|]. rewrite H2. apply proj_snoc_neq; auto.
+  - destruct (spawned s) as [|[a1 d] sp] eqn:Esp; [discriminate|]. inversion Ha; subst a1.
+    destruct (Hc _ _ _ H) as [H1 H2]. split; [exact H1|]. rewrite H2. symmetry. apply proj_cons_neq; auto.
+Qed.
